@@ -31,7 +31,13 @@ func c20Gen(r *kit.Rng) *sched.Scenario {
 	caps.IntKeys = false
 	caps.Choices = true
 	caps.MaxNodes = r.Range(10, 25)
-	s := schema.Generate(r, caps, "m", r.Chance(1, 2), true)
+	var s *schema.Node
+	rich := r.Chance(1, 3) // two-module schema with every leaf type (identityref, bits, union, ...)
+	if rich {
+		s = schema.GenerateRich(r, "m", r.Range(25, 45), r.Range(2, 3))
+	} else {
+		s = schema.Generate(r, caps, "m", r.Chance(1, 2), true)
+	}
 	sc := &sched.Scenario{Schema: s, Procs: kit.EnvInt("VERIF_C20_PROCS", 1)}
 	k := r.Range(2, 6)
 	loads := r.Chance(1, 2) // swarm: half of the scenarios contain no load at all (pure use of the shared module)
@@ -43,8 +49,16 @@ func c20Gen(r *kit.Rng) *sched.Scenario {
 			sk = "rmap"
 			st, _ = store.New(sk)
 		}
+		if rich {
+			sk = "ctl" // the real stores do not hold every leaf type
+			st, _ = store.New(sk)
+		}
 		o := st.GenOpts()
 		o.Density = 70
+		if rich {
+			o.Nasty = true
+			o.KeyPool = 6
+		}
 		init := model.Random(r, s, o.WithBudget(40), 0)
 		cl := sched.Client{Store: sk, Init: init}
 		g := &opGen{r: r, o: o, srcs: []string{"json", "xml", "mnode"}, kinds: []string{"upsert", "upsert", "delete"}}
@@ -238,6 +252,9 @@ func c20Batch(c *Check, tier string) int {
 	var samples []interface{}
 	switchSites := map[string]bool{}
 	for _, it := range items {
+		if it.again != nil {
+			it.res.Races = append(it.res.Races, it.again.Races...)
+		}
 		fs := c20Oracle(it.sc, &it.res)
 		steps += it.res.Steps
 		stats.Inc("schedule:" + it.sc.Schedule.Mode)
@@ -256,7 +273,13 @@ func c20Batch(c *Check, tier string) int {
 		}
 		if it.again != nil {
 			stats.Inc("determinism-recheck")
-			if it.again.Fingerprint != it.res.Fingerprint || fmt.Sprint(it.again.Together) != fmt.Sprint(it.res.Together) || len(it.again.Races) != len(it.res.Races) {
+			// the detector's own bookkeeping (bounded shadow history) makes the NUMBER of
+			// reports vary once there are races; the interleaving, every result and
+			// whether anything was reported must not
+			// (whether the detector still holds the earlier access of a heap object also
+			// depends on when the garbage collector recycled it, so reports are compared
+			// by union, not required to be equal)
+			if it.again.Fingerprint != it.res.Fingerprint || fmt.Sprint(it.again.Together) != fmt.Sprint(it.res.Together) {
 				fmt.Fprintf(os.Stderr, "harness: scenario %d is not deterministic across GOMAXPROCS (fingerprint %s vs %s, races %d vs %d)\n", it.i, it.res.Fingerprint, it.again.Fingerprint, len(it.res.Races), len(it.again.Races))
 				harness++
 			}
@@ -326,8 +349,13 @@ func c20Batch(c *Check, tier string) int {
 		fmt.Printf("VIOLATION property=C20 replay=%s\n  key=%s (seen %d times)\n  %s\n", path, k, h.n, trunc(h.f.detail, 1500))
 		exit = 1
 	}
+	batch := kit.NewLog(0)
+	for _, it := range items {
+		batch.Add("%d|%s|%v", it.i, it.res.Fingerprint, it.res.Together)
+	}
 	wall := time.Since(start).Seconds()
 	cov := map[string]interface{}{
+		"batch_fingerprint":     batch.HashHex(),
 		"evaluations":           len(items),
 		"distinct_nontrivial":   len(prints),
 		"rule":                  "one evaluation = one schedule executed in a fresh worker process (-race build of the instrumented library): 2-6 client goroutines with their own store and a program of 3-8 operations (load a generated module set with uses/anydata/identities, load the shared module's text again, upsert from JSON/XML/model source, delete, export, Find with depth/content/with-defaults then JSON write in all 8 configurations, XML write) over ONE shared compiled module; exactly one client runs at a time, switched at statement granularity by a seeded scheduler (uniform quanta with mean 5/50/500/5000 statements, or PCT with 1-3 priority change points). Oracles: zero race-detector reports; every operation's result byte-equal to the same program run alone afterwards; deep structural hash (unexported fields included) of the shared module unchanged; deep hash of every package-level variable of the library unchanged by use and by load. distinct_nontrivial counts distinct schedule fingerprints (hash of the (client, yield site) sequence at switch points) among schedules with more switches than clients",
